@@ -1219,9 +1219,16 @@ def euler_from_matrix(matrix, axes="sxyz"):
     if repetition:
         sy = np.sqrt(M[i, j] * M[i, j] + M[i, k] * M[i, k])
         if sy > _EPS:
-            ax = np.arctan2(M[i, j], M[i, k])
-            ay = np.arctan2(sy, M[i, i])
+            # close to gimbal lock `M[i, j]` and `M[i, k]` are `sin(ay)` times
+            # the sine and cosine of `ax` and drown in the rounding noise of
+            # `M`: take `ax` from rows `j, k` rotated back by `az` which are
+            # `cos(ax)` and `-sin(ax)` whatever `ay` is
             az = np.arctan2(M[j, i], -M[k, i])
+            sz, cz = np.sin(az), np.cos(az)
+            ax = np.arctan2(
+                -(cz * M[j, k] + sz * M[k, k]), cz * M[j, j] + sz * M[k, j]
+            )
+            ay = np.arctan2(sy, M[i, i])
         else:
             ax = np.arctan2(-M[j, k], M[j, j])
             ay = np.arctan2(sy, M[i, i])
@@ -1229,9 +1236,16 @@ def euler_from_matrix(matrix, axes="sxyz"):
     else:
         cy = np.sqrt(M[i, i] * M[i, i] + M[j, i] * M[j, i])
         if cy > _EPS:
-            ax = np.arctan2(M[k, j], M[k, k])
-            ay = np.arctan2(-M[k, i], cy)
+            # close to gimbal lock `M[k, j]` and `M[k, k]` are `cos(ay)` times
+            # the sine and cosine of `ax` and drown in the rounding noise of
+            # `M`: take `ax` from rows `i, j` rotated back by `az` which are
+            # `sin(ax)` and `cos(ax)` whatever `ay` is
             az = np.arctan2(M[j, i], M[i, i])
+            sz, cz = np.sin(az), np.cos(az)
+            ax = np.arctan2(
+                sz * M[i, k] - cz * M[j, k], cz * M[j, j] - sz * M[i, j]
+            )
+            ay = np.arctan2(-M[k, i], cy)
         else:
             ax = np.arctan2(-M[j, k], M[j, j])
             ay = np.arctan2(-M[k, i], cy)
